@@ -23,6 +23,8 @@ TRUSTED = ["tools/props/C18.py case generator, endpoint driver and the Q-literal
 # signature of the one finding on the unchanged tree (strict reading of 'the overall best observation'); see the report
 KNOWN_SIG = "C18:view:overall-best:only-failed-observations-returned-when-successes-tie-with-lie"
 REPORT_STRICT_OVERALL_BEST = True
+CLUSTER_SIG = "C18:view:cluster-best:failed-observation-returned-although-its-cluster-has-a-success-tying-with-the-lie"
+KNOWN_SIGS = (KNOWN_SIG, CLUSTER_SIG)
 STATS = dict(cluster_check_decided=0, cluster_check_undecided_ties=0)
 
 
@@ -423,6 +425,16 @@ def oracle_view(inp):
       return fail("best-indices-are-not-the-cluster-minima-of-farthest-first",
                   "the result is not one best-valued observation from each farthest-first cluster started at the best observation",
                   dict(centres=cs, partition=part), out)
+    # strict reading per cluster (same root cause as the overall-best finding, theorem C18_cluster_min_scaled_is_best_raw, failure
+    # branch): a FAILED observation is returned for a cluster that contains a successful one (which then ties with the lie value)
+    decided = [v for v in verdicts if v is not None]
+    if REPORT_STRICT_OVERALL_BEST and verdicts and len(decided) == len(verdicts) and all(v[0] for v in decided):
+      _, cs, part = decided[0]
+      for i in out:
+        mates = [t for t in range(n) if part[t] == part[i] and not fails[t]]
+        if fails[i] and mates and any((not fails[j]) and raw[j] == min(raw[q] for q in succ) for j in out):
+          return fail(CLUSTER_SIG, "a failed observation is returned for a cluster that contains a successful observation (the success has the worst "
+                      "successful value, so the failure's lie value ties with it and the earlier index wins)", dict(cluster_successes=mates, partition=part), out)
   # strict reading of 'the overall best observation': a successful observation with the best raw value is returned
   if REPORT_STRICT_OVERALL_BEST and succ:
     braw = min(raw[i] for i in succ)
@@ -502,6 +514,13 @@ def search(ctx, hints, broken):
     if "kind" in h and "input" in h:
       n += 1
       add(oracle(dict(kind=h["kind"], **h["input"])))
+  # deterministic instances of the two registered findings (KNOWN_FINDINGS.json)
+  for det in (dict(kind="view", components=[dict(var_type="double", elements=[0.0, 4.0])], points=[[0.0], [4.0], [1.0]], values=[5.0, 7.0, 3.0],
+                   failures=[True, True, False], maximize=False, k=2, num_metrics=1, opt_index=0),
+              dict(kind="view", components=[dict(var_type="double", elements=[0.0, 4.0])], points=[[0.0], [4.0], [1.0], [3.0]], values=[5.0, 7.0, 3.0, 6.0],
+                   failures=[False, True, False, False], maximize=False, k=2, num_metrics=1, opt_index=0)):
+    n += 1
+    add(oracle(det))
   budget = ctx.n(1500, 25000) * (2 if broken else 1)
   rng = ctx.rng
   for _ in range(budget):
@@ -516,7 +535,7 @@ def search(ctx, hints, broken):
       inp = dict(kind="view", **gen_float_view(rng))
     n += 1
     add(oracle(inp))
-    if len([f for f in fails if f["signature"] != KNOWN_SIG]) >= 3:
+    if len([f for f in fails if f["signature"] not in KNOWN_SIGS]) >= 3:
       break
   return dict(evaluations=n, failures=fails, oracle="brute-force farthest-first clustering and direct property statement over exact Fractions", **STATS)
 
